@@ -56,6 +56,24 @@ func Check(c *Case) (res kit.Result) {
 		res.Failf("%s panicked: %v", e, v)
 		return
 	}
+	// the same values in descending and in a scrambled order must give the same results
+	// (order preservation is a statement about values, not about positions in a buffer)
+	for pass, perm := range [][]int{reversed(len(in)), scrambled(len(in))} {
+		pin, pout := make([]int64, len(in)), make([]int64, len(in))
+		for i, j := range perm {
+			pin[i] = in[j]
+		}
+		if p, v := kit.Try(func() { e.NewBlockFix(c.Fix)(pin, nil, pout, nil) }); p {
+			res.Failf("%s panicked: %v", e, v)
+			return
+		}
+		for i, j := range perm {
+			if pout[i] != out[j] {
+				res.Failf("%s: amplitude %d maps to %d when the buffer is in ascending order but to %d in %s order (position %d, preceded by %d): the result depends on the neighbours, so order is not preserved", e, in[j], out[j], pout[i], []string{"descending", "scrambled"}[pass], i, pin[kit.Max(i-1, 0)])
+				return
+			}
+		}
+	}
 	for i := range in {
 		if in[i] == lo && out[i] != numkit.Lo(dd) {
 			res.Failf("%s: lowest code (amplitude %d) maps to amplitude %d, want the lowest code %d", e, lo, out[i], numkit.Lo(dd))
@@ -84,6 +102,30 @@ func Check(c *Case) (res kit.Result) {
 		res.Class("signednessDiffers")
 	}
 	return
+}
+
+func reversed(n int) []int {
+	p := make([]int, n)
+	for i := range p {
+		p[i] = n - 1 - i
+	}
+	return p
+}
+
+// scrambled is a fixed permutation that puts far-apart elements next to each other.
+func scrambled(n int) []int {
+	p := make([]int, 0, n)
+	for i, j := 0, n-1; i <= j; i, j = i+1, j-1 {
+		p = append(p, i)
+		if i != j {
+			p = append(p, j)
+		}
+	}
+	// and swap neighbours pairwise so that ascending runs of two appear in descending order as well
+	for i := 0; i+3 < len(p); i += 4 {
+		p[i], p[i+2] = p[i+2], p[i]
+	}
+	return p
 }
 
 func FP(c *Case) uint64 {
